@@ -2,6 +2,7 @@
 import Rbgp.Term
 import Rbgp.Wire.Codec
 import Rbgp.Wire.UpdateSpec
+import Rbgp.Wire.E2E
 namespace Rbgp.Wire.UCodec
 open Rbgp Rbgp.Term Rbgp.Wire Rbgp.Wire.Codec
 
@@ -146,6 +147,92 @@ def oracle (k : UCase) (obs : Term) : String :=
       | some res => verdictStr (USpec.check k.codec k.ebgp k.u k.cs res)
       | none => "fail clause=unparsable-observation"
   | _ => "fail clause=unparsable-observation"
+
+/-! ## end-to-end cases: `(e2e <kind> <pre> <c05 case> x<frame>)` -/
+
+structure ECase where
+  kind : E2E.Kind
+  pre : Bool
+  k : UCase
+  bytes : Bytes
+  deriving Repr
+
+def kindOf? : Term → Option E2E.Kind
+  | .atom "ebgp" => some .ebgp
+  | .atom "ibgp" => some .ibgp
+  | .atom "confed" => some .confed
+  | _ => none
+
+/-- what the daemon harness accepts: IPv4/IPv6 unicast / multicast only, the peer kind agrees with the case -/
+def ecaseOf? : Term → Option ECase
+  | .list [.atom "e2e", kd, pr, c, b] => do
+      let kind ← kindOf? kd
+      let pre ← asBool? pr
+      let k ← ucaseOf? c
+      let bytes ← bytesOf? b
+      let famOk := k.codec.fams.all fun (f, _) => f == 65537 || f == 65538 || f == 131073 || f == 131074
+      let pOk (p : CPfx) : Bool := p.id < 4294967296 && p.mask ≤ 128 && p.addr.length == (p.mask + 7) / 8
+      let pfxOk := k.u.wd.all pOk && k.u.nlri.all pOk
+        && (match k.u.mpr with | some m => m.nlri.all pOk | none => true)
+        && (match k.u.mpu with | some m => m.nlri.all pOk | none => true)
+      if famOk && pfxOk && renderable k && (k.ebgp == (kind == .ebgp)) && 19 ≤ bytes.length && bytes.length ≤ 65535
+      then some ⟨kind, pre, k, bytes⟩ else none
+  | _ => none
+
+def ribLe (a b : E2E.RKey × List Attr) : Bool :=
+  let ka := a.1
+  let kb := b.1
+  if ka.fam != kb.fam then ka.fam < kb.fam
+  else if ka.addr != kb.addr then decide (ka.addr < kb.addr)
+  else if ka.mask != kb.mask then ka.mask < kb.mask
+  else ka.id ≤ kb.id
+
+def ribInsertSorted (e : E2E.RKey × List Attr) : E2E.Rib → E2E.Rib
+  | [] => [e]
+  | x :: xs => if ribLe e x then e :: x :: xs else x :: ribInsertSorted e xs
+
+def ribSort (r : E2E.Rib) : E2E.Rib := r.foldr ribInsertSorted []
+
+def ribT (rib : E2E.Rib) : Term :=
+  tag "rib" ((ribSort rib).map fun e =>
+    tag "r" [nat e.1.fam, nat e.1.id, nat e.1.mask, Term.bytes e.1.addr, list (e.2.map attrT)])
+
+def eobsT : E2E.EObs → Term
+  | .up rib => tag "e2e-obs" [list [sym "up"], ribT rib]
+  | .reset c s => tag "e2e-obs" [tag "reset" [nat c, nat s], tag "rib" []]
+  | .panic => tag "e2e-obs" [list [sym "panic"], tag "rib" []]
+  | .other => tag "e2e-obs" [list [sym "other"], tag "rib" []]
+
+def runECase (p : Profile) (e : ECase) : Term :=
+  eobsT (E2E.runE2E noHypDec p e.kind e.pre e.k.codec e.k.ebgp e.k.u e.bytes)
+
+def ribEntryOf? : Term → Option (E2E.RKey × List Attr)
+  | .list [.atom "r", f, i, m, a, .list attrs] => do
+      pure (⟨← asNat? f, ← asNat? i, ← asNat? m, ← asBytes? a⟩, ← attrs.mapM attrOf?)
+  | _ => none
+
+def eobsOf? : Term → Option E2E.EObs
+  | .list [.atom "e2e-obs", .list [.atom "up"], .list (.atom "rib" :: rs)] => (rs.mapM ribEntryOf?).map .up
+  | .list [.atom "e2e-obs", .list [.atom "reset", c, s], _] => do pure (.reset (← asNat? c) (← asNat? s))
+  | .list [.atom "e2e-obs", .list [.atom "panic"], _] => some .panic
+  | _ => none
+
+def oracleE (e : ECase) (obs : Term) : String :=
+  match eobsOf? obs with
+  | some o => verdictStr (E2E.checkE e.kind e.k.codec e.k.ebgp e.k.u e.k.cs e.bytes o)
+  | none => "fail clause=unparsable-observation"
+
+def statsE (e : ECase) (obs : Term) : String :=
+  if !E2E.wfE e.kind e.k.codec e.k.ebgp e.k.u e.k.cs e.bytes then "e2e-skipped-not-wf=1"
+  else
+    let cls := USpec.allClasses e.k.codec e.k.u e.k.cs
+    let kd := match e.kind with | .ebgp => "ebgp" | .ibgp => "ibgp" | .confed => "confed"
+    let cl := if cls.contains .weak then "weak" else if cls.contains .taw || cls.contains .tawOrReset then "must-taw" else "other"
+    let out := match eobsOf? obs with
+      | some (.up rib) => if (E2E.fresh e.kind rib).isEmpty then "no-fresh-route" else "fresh-route"
+      | some (.reset _ _) => "reset"
+      | _ => "other"
+    s!"e2e-judged=1 e2e-kind:{kd}=1 e2e-pre:{e.pre}=1 e2e-class:{cl}=1 e2e-outcome:{out}=1"
 
 /-- evidence only: which clauses of the checker judged this case, and how the run ended -/
 def stats (k : UCase) (obs : Term) : String :=
